@@ -32,7 +32,7 @@ ASSUMPTIONS = [
 ]
 MIN_EVENTS = {
     'quick': {'oracle.sheet-roundtrip': 3000, 'oracle.node-roundtrip': 14000, 'oracle.shipped': 45, 'oracle.edited': 1200},
-    'thorough': {'oracle.sheet-roundtrip': 60000, 'oracle.node-roundtrip': 300000, 'oracle.shipped': 45, 'oracle.edited': 24000},
+    'thorough': {'oracle.sheet-roundtrip': 60000, 'oracle.node-roundtrip': 190000, 'oracle.shipped': 45, 'oracle.edited': 24000},
 }
 HOSTILE_CLASSES = ['string', 'string-backslash', 'string-newline', 'url', 'url-backslash', 'url-control', 'comment', 'ident', 'nonascii', 'unknown-keyword']
 
@@ -43,6 +43,13 @@ def norm(x):
     if isinstance(x, dict):
         return {k: norm(v) for k, v in x.items()}
     return x
+
+
+def has_linebreak(t):
+    """a comment text that holds a line break once parsed: written literally or as an escape (escapes in comments are decoded by design)"""
+    import re
+
+    return '\n' in t or '\r' in t or '\f' in t or bool(re.search(r'\\0{0,5}[aAcCdD](?![0-9a-fA-F])', t))
 
 
 def content_features(stmts, hc):
@@ -72,7 +79,7 @@ def content_features(stmts, hc):
     def items(its, in_block=True):
         for it in its:
             if it[0] == 'comment':
-                if '\n' in it[1]:
+                if has_linebreak(it[1]):
                     feats.add('comment.multiline-in-block')
                 comment(it[1])
             else:
@@ -111,7 +118,7 @@ def content_features(stmts, hc):
         for st in sts:
             k = st[0]
             if k == 'comment':
-                if nested and '\n' in st[1]:
+                if nested and has_linebreak(st[1]):
                     feats.add('comment.multiline-in-block')
                 comment(st[1])
             elif k == 'style':
@@ -184,17 +191,18 @@ def nonempty_rules(rules):
     return out
 
 
-def project_nonempty(sheet):
-    def rec(rules):
-        res = []
-        for r in nonempty_rules(rules):
-            pr = P.p_rules([r])
-            if pr and pr[0][0] == 'media':
-                pr = [('media', pr[0][1], rec(r.cssRules))]
-            res.extend(pr)
-        return res
+def project_nonempty_rules(rules):
+    res = []
+    for r in nonempty_rules(rules):
+        pr = P.p_rules([r])
+        if pr and pr[0][0] == 'media':
+            pr = [('media', pr[0][1], project_nonempty_rules(r.cssRules))]
+        res.extend(pr)
+    return res
 
-    return rec(sheet.cssRules)
+
+def project_nonempty(sheet):
+    return project_nonempty_rules(sheet.cssRules)
 
 
 def roundtrip_sheet(ctx, cssutils, sheet, origin, feats, case_extra=None, counter='oracle.sheet-roundtrip', prefs=None):
@@ -277,7 +285,8 @@ def node_roundtrips(ctx, cssutils, sheet, feats, origin, prefs=None):
                     return fresh
 
                 if not (cls == 'CSSMediaRule' and nsmap):  # a detached @media has no way to receive the sheet's namespaces
-                    check('rule.' + cls, make, lambda n: n.cssText, lambda n: P.p_rules([n]), r)
+                    # (a nested rule that serialises as nothing - emptied by the parser - is not in the text: compared like at sheet level)
+                    check('rule.' + cls, make, lambda n: n.cssText, lambda n: project_nonempty_rules([n]), r)
             if cls == 'CSSStyleRule':
                 style(r.style)
                 for s in r.selectorList:
